@@ -143,6 +143,7 @@ class Interp:
         self.dev = set(dev)            # deviation switches (known findings)
         self.fired = set()
         self.events = []
+        self.print_stmts = []          # the statement of every PRINT event
         self.types = {}
         self.procs = {}
         self.gconsts = {}
@@ -835,6 +836,7 @@ class Interp:
                 items.append(('v', t, v))
         self.cur_stmt = s
         self.events.append(('PRINT', items))
+        self.print_stmts.append(s)
 
     def x_If(self, s):
         for cond, body in s.arms:
